@@ -156,7 +156,7 @@ class Dataset:
                     lines.append(f"{fr[i, q, m]:.10f}")
         lines += ["", "weight"]
         for q in qperm:
-            lines.append(" ".join(f"{c:.8f}" for c in self.qcoords[q]) + f" {self.weights[q] * wscale:.8f}")
+            lines.append(" ".join(f"{c:.8f}" for c in self.qcoords[q]) + f" {float(self.weights[q] * wscale)!r}")
         (d / "input01").write_text("\n".join(lines) + "\n")
         cols = table_cols or self.keys
         if pres.get("col_perm"):
